@@ -145,10 +145,10 @@ Lemma right_spec s k : not_code s ->
 Proof.
   intros H. unfold X_right. wrap_run. unfold text.f_right. py_run.
   destruct (k <? 0) eqn:E; [reflexivity|]. apply Z.ltb_ge in E.
-  destruct (k =? 0) eqn:E0.
-  - apply Z.eqb_eq in E0. subst k. change (Z.to_nat 0) with 0%nat.
+  destruct (k <? 1) eqn:E0.
+  - apply Z.ltb_lt in E0. replace k with 0 by lia. change (Z.to_nat 0) with 0%nat.
     unfold lastn. rewrite Nat.sub_0_r, skipn_all. reflexivity.
-  - apply Z.eqb_neq in E0. cbn [py_str]. py_run.
+  - apply Z.ltb_ge in E0. cbn [py_str]. py_run.
     rewrite slice_last by lia. reflexivity.
 Qed.
 
@@ -408,9 +408,11 @@ Qed.
 
 Lemma find_eval f w st : not_code f -> not_code w ->
   X_find [VStr f; VStr w; VInt st]
-  = Ok (let r := str_find_idx w f (st - 1) in if r =? -1 then VERR else VInt (r + 1)).
+  = Ok (if st <? 1 then VERR
+        else let r := str_find_idx w f (st - 1) in if r =? -1 then VERR else VInt (r + 1)).
 Proof.
   intros Hf Hw. unfold X_find. wrap_run. unfold text.f_find. py_run.
+  destruct (st <? 1); [reflexivity|]. py_run.
   cbn [str_find2 as_index bind]. py_run.
   destruct (str_find_idx w f (st - 1) =? -1); reflexivity.
 Qed.
@@ -419,27 +421,31 @@ Lemma find_default f w : not_code f -> not_code w ->
   X_find [VStr f; VStr w] = X_find [VStr f; VStr w; VInt 1].
 Proof. intros Hf Hw. unfold X_find. wrap_run. reflexivity. Qed.
 
-(* FIND(f, w, start) for start >= 1: the least position p >= start at which f
-   occurs in w, else #VALUE! *)
-Lemma find_first f w st : not_code f -> not_code w -> 1 <= st ->
-  (X_find [VStr f; VStr w; VInt st] = Ok VERR
-   /\ forall q, st <= q -> q - 1 + zlen f <= zlen w -> ~ occurs_at f w q)
-  \/ (exists p, X_find [VStr f; VStr w; VInt st] = Ok (VInt p)
-      /\ st <= p /\ p - 1 + zlen f <= zlen w /\ occurs_at f w p
-      /\ forall q, st <= q < p -> ~ occurs_at f w q).
+(* FIND(f, w, start), every integer start: #VALUE! below 1; otherwise the
+   least position p >= start at which f occurs in w, else #VALUE! *)
+Lemma find_first f w st : not_code f -> not_code w ->
+  (st < 1 -> X_find [VStr f; VStr w; VInt st] = Ok VERR)
+  /\ (1 <= st ->
+      (X_find [VStr f; VStr w; VInt st] = Ok VERR
+       /\ forall q, st <= q -> q - 1 + zlen f <= zlen w -> ~ occurs_at f w q)
+      \/ (exists p, X_find [VStr f; VStr w; VInt st] = Ok (VInt p)
+          /\ st <= p /\ p - 1 + zlen f <= zlen w /\ occurs_at f w p
+          /\ forall q, st <= q < p -> ~ occurs_at f w q)).
 Proof.
-  intros Hf Hw Hst. rewrite find_eval by assumption.
-  destruct (find_idx_spec w f (st - 1)) as [(Hr & Hno) | (H1 & H2 & H3 & H4)]; [lia| |].
-  - left. cbv zeta. rewrite Hr. split; [reflexivity|].
-    intros q Hq Hlen. rewrite occurs_at_prefix by lia.
-    rewrite (Hno (q - 1)) by lia. discriminate.
-  - right. exists (str_find_idx w f (st - 1) + 1). cbv zeta.
-    replace (str_find_idx w f (st - 1) =? -1) with false by (symmetry; apply Z.eqb_neq; lia).
-    split; [reflexivity|]. split; [lia|]. split; [lia|]. split.
-    + rewrite occurs_at_prefix by lia.
-      replace (str_find_idx w f (st - 1) + 1 - 1) with (str_find_idx w f (st - 1)) by lia.
-      exact H3.
-    + intros q Hq. rewrite occurs_at_prefix by lia. rewrite (H4 (q - 1)) by lia. discriminate.
+  intros Hf Hw. rewrite find_eval by assumption. split.
+  - intros Hst. replace (st <? 1) with true by (symmetry; apply Z.ltb_lt; lia). reflexivity.
+  - intros Hst. replace (st <? 1) with false by (symmetry; apply Z.ltb_ge; lia).
+    destruct (find_idx_spec w f (st - 1)) as [(Hr & Hno) | (H1 & H2 & H3 & H4)]; [lia| |].
+    + left. cbv zeta. rewrite Hr. split; [reflexivity|].
+      intros q Hq Hlen. rewrite occurs_at_prefix by lia.
+      rewrite (Hno (q - 1)) by lia. discriminate.
+    + right. exists (str_find_idx w f (st - 1) + 1). cbv zeta.
+      replace (str_find_idx w f (st - 1) =? -1) with false by (symmetry; apply Z.eqb_neq; lia).
+      split; [reflexivity|]. split; [lia|]. split; [lia|]. split.
+      * rewrite occurs_at_prefix by lia.
+        replace (str_find_idx w f (st - 1) + 1 - 1) with (str_find_idx w f (st - 1)) by lia.
+        exact H3.
+      * intros q Hq. rewrite occurs_at_prefix by lia. rewrite (H4 (q - 1)) by lia. discriminate.
 Qed.
 
 (* ------------------------------------------------- EXACT and CONCATENATE *)
@@ -538,17 +544,127 @@ Proof.
   - exact H.
 Qed.
 
-Lemma trim_eval s : not_code s -> X_trim [VStr s] = Ok (VStr (squeeze_spaces s)).
+Lemma no_adjacent_tail c s : no_adjacent_spaces (c :: s) -> no_adjacent_spaces s.
+Proof. cbn [no_adjacent_spaces]. intros [_ H]. exact H. Qed.
+
+Lemma lstrip32_no_adjacent s : no_adjacent_spaces s -> no_adjacent_spaces (lstrip32 s).
+Proof.
+  induction s as [|c s IH]; intros H; [exact I|]. cbn [lstrip32].
+  destruct (c =? 32); [apply IH; exact (no_adjacent_tail _ _ H)|exact H].
+Qed.
+
+Lemma rstrip32_head c s : rstrip32 (c :: s) = [] \/ exists r, rstrip32 (c :: s) = c :: r.
+Proof.
+  cbn [rstrip32]. destruct (rstrip32 s) as [|d r].
+  - destruct (c =? 32); [left; reflexivity|right; exists []; reflexivity].
+  - right. exists (d :: r). reflexivity.
+Qed.
+
+Lemma rstrip32_no_adjacent s : no_adjacent_spaces s -> no_adjacent_spaces (rstrip32 s).
+Proof.
+  induction s as [|c s IH]; intros H; [exact I|].
+  pose proof (IH (no_adjacent_tail _ _ H)) as Hr. cbn [rstrip32].
+  destruct (rstrip32 s) as [|d r] eqn:E.
+  - destruct (c =? 32); cbn; auto.
+  - destruct s as [|d' s']; [discriminate|].
+    destruct (rstrip32_head d' s') as [E'|(r' & E')]; rewrite E' in E; [discriminate|].
+    injection E as <- <-. cbn [no_adjacent_spaces] in H |- *. destruct H as [H _].
+    split; [exact H|exact Hr].
+Qed.
+
+Lemma lstrip32_hd s : hd 0 (lstrip32 s) <> 32.
+Proof.
+  induction s as [|c s IH]; [cbn; lia|]. cbn [lstrip32].
+  destruct (Z.eqb_spec c 32); [exact IH|exact n].
+Qed.
+
+Lemma rstrip32_last s : last (rstrip32 s) 0 <> 32.
+Proof.
+  induction s as [|c s IH]; [cbn; lia|]. cbn [rstrip32].
+  destruct (rstrip32 s) as [|d r].
+  - destruct (Z.eqb_spec c 32); [cbn; lia|exact n].
+  - exact IH.
+Qed.
+
+Lemma rstrip32_hd s : hd 0 s <> 32 -> hd 0 (rstrip32 s) <> 32.
+Proof.
+  destruct s as [|c s]; [auto|]. intros H.
+  destruct (rstrip32_head c s) as [E|(r & E)]; rewrite E; [cbn; lia|exact H].
+Qed.
+
+Definition nonspaces (s : str) : str := filter (fun c => negb (c =? 32)) s.
+
+Lemma lstrip32_nonspaces s : nonspaces (lstrip32 s) = nonspaces s.
+Proof.
+  induction s as [|c s IH]; [reflexivity|]. cbn [lstrip32].
+  destruct (c =? 32) eqn:E; [|reflexivity]. unfold nonspaces in *. cbn [filter]. rewrite E. exact IH.
+Qed.
+
+Lemma rstrip32_nonspaces s : nonspaces (rstrip32 s) = nonspaces s.
+Proof.
+  induction s as [|c s IH]; [reflexivity|]. cbn [rstrip32]. unfold nonspaces in *.
+  destruct (rstrip32 s) as [|d r].
+  - cbn [filter] in *. rewrite <- IH. destruct (c =? 32) eqn:E; cbn [filter negb]; rewrite ?E; reflexivity.
+  - cbn [filter] in *. rewrite <- IH. reflexivity.
+Qed.
+
+Lemma lstrip32_fixed s : hd 0 s <> 32 -> lstrip32 s = s.
+Proof.
+  destruct s as [|c s]; [reflexivity|]. cbn [hd lstrip32]. intros H.
+  destruct (Z.eqb_spec c 32); [contradiction|reflexivity].
+Qed.
+
+Lemma rstrip32_fixed s : last s 0 <> 32 -> rstrip32 s = s.
+Proof.
+  induction s as [|c s IH]; [reflexivity|]. intros H. cbn [rstrip32].
+  destruct s as [|d s'].
+  - cbn in *. destruct (Z.eqb_spec c 32); [contradiction|reflexivity].
+  - rewrite IH by exact H. reflexivity.
+Qed.
+
+Lemma trim_chars_props s : let t := trim_chars s in
+  no_adjacent_spaces t /\ hd 0 t <> 32 /\ last t 0 <> 32 /\ nonspaces t = nonspaces s
+  /\ trim_chars t = t.
+Proof.
+  cbv zeta. unfold trim_chars.
+  assert (H1 : no_adjacent_spaces (rstrip32 (lstrip32 (squeeze_spaces s))))
+    by (apply rstrip32_no_adjacent, lstrip32_no_adjacent, squeeze_no_adjacent).
+  assert (H2 : hd 0 (rstrip32 (lstrip32 (squeeze_spaces s))) <> 32)
+    by (apply rstrip32_hd, lstrip32_hd).
+  pose proof (rstrip32_last (lstrip32 (squeeze_spaces s))) as H3.
+  split; [exact H1|]. split; [exact H2|]. split; [exact H3|]. split.
+  - rewrite rstrip32_nonspaces, lstrip32_nonspaces. apply squeeze_keeps_nonspaces.
+  - rewrite (squeeze_fixed _ H1), (lstrip32_fixed _ H2), (rstrip32_fixed _ H3). reflexivity.
+Qed.
+
+Lemma trim_eval s : not_code s -> X_trim [VStr s] = Ok (VStr (trim_chars s)).
 Proof. intros H. unfold X_trim. wrap_run. reflexivity. Qed.
 
-Lemma trim_partial s : not_code s ->
+(* a fixed point of the character function is a fixed point of TRIM even when it
+   happens to spell an error value (TRIM(" #N/A") = "#N/A", which TRIM passes through) *)
+Lemma trim_fixed_any t : trim_chars t = t -> X_trim [VStr t] = Ok (VStr t).
+Proof.
+  intros Hf.
+  assert (Hp : exists b, py_in (VStr t) excelutil.c_ERROR_CODES = Ok b) by (eexists; reflexivity).
+  destruct Hp as [b Hp]. unfold X_trim, wrap.
+  cbn [forallb is_scalar andb negb map_idx in_idx existsb Nat.eqb orb bind first_code].
+  rewrite coerce_str_text. cbn [bind first_code in_idx existsb Nat.eqb orb].
+  rewrite Hp. cbn [bind]. destruct b; [reflexivity|].
+  cbn [map_idx in_idx existsb bind first_code any_not_number first_err_string].
+  rewrite Hp. cbn [bind]. rewrite Hf. reflexivity.
+Qed.
+
+(* TRIM: single inner spaces, none at either end, the other characters
+   untouched and in order, idempotent *)
+Lemma trim_full s : not_code s ->
   exists t, X_trim [VStr s] = Ok (VStr t) /\ no_adjacent_spaces t
-            /\ filter (fun c => negb (c =? 32)) t = filter (fun c => negb (c =? 32)) s
+            /\ hd 0 t <> 32 /\ last t 0 <> 32
+            /\ nonspaces t = nonspaces s
             /\ X_trim [VStr t] = Ok (VStr t).
 Proof.
-  intros H. exists (squeeze_spaces s). split; [apply trim_eval; exact H|].
-  split; [apply squeeze_no_adjacent|]. split; [apply squeeze_keeps_nonspaces|].
-  rewrite trim_eval by (apply squeeze_not_code; exact H). rewrite squeeze_idempotent. reflexivity.
+  intros H. exists (trim_chars s). destruct (trim_chars_props s) as (H1 & H2 & H3 & H4 & H5).
+  split; [apply trim_eval; exact H|]. repeat (split; [assumption|]).
+  apply trim_fixed_any. exact H5.
 Qed.
 
 (* ------------------------------------------------------------ UPPER / LOWER *)
@@ -976,18 +1092,83 @@ Proof.
     + intros Hi2. apply subst_nth_step; assumption.
 Qed.
 
+(* ------------------------------- fractional counts and start positions *)
+Lemma coerce_num_float q :
+  excelutil.f_coerce_to_number py_fuel (VFloat q) (VBool true)
+  = Ok (if q_eqb (inject_Z (q_trunc q)) q then VInt (q_trunc q) else VFloat q).
+Proof.
+  change py_fuel with (S 63). cbn [excelutil.f_coerce_to_number]. py_run.
+  replace (excelutil.f_is_number (VFloat q)) with (Ok (VBool true)) by reflexivity.
+  py_run. cbn [py_float bind]. unfold py_eq. cbn [as_num num_q].
+  destruct (q_eqb (inject_Z (q_trunc q)) q); py_run; reflexivity.
+Qed.
+
+Lemma in_codes_float q : py_in (VFloat q) excelutil.c_ERROR_CODES = Ok false.
+Proof. reflexivity. Qed.
+Lemma is_number_float q : excelutil.f_is_number (VFloat q) = Ok (VBool true).
+Proof. reflexivity. Qed.
+
+Lemma find_body_float f w q :
+  text.f_find f w (VFloat q) = text.f_find f w (VInt (q_trunc q)).
+Proof. reflexivity. Qed.
+
+Lemma find_fraction f w q : not_code f -> not_code w ->
+  X_find [VStr f; VStr w; VFloat q] = X_find [VStr f; VStr w; VInt (q_trunc q)].
+Proof.
+  intros Hf Hw. unfold X_find. wrap_run. rewrite coerce_num_float.
+  destruct (q_eqb (inject_Z (q_trunc q)) q); wrap_run;
+    rewrite ?in_codes_float, ?is_number_float; wrap_run; reflexivity.
+Qed.
+
+Lemma q_ltb_false a b : (b <= a)%Q -> q_ltb a b = false.
+Proof.
+  intros H. unfold q_ltb. destruct (Qcompare_spec a b) as [E|E|E]; try reflexivity.
+  exfalso. apply (Qlt_not_le _ _ E H).
+Qed.
+Lemma q_ltb_true a b : (a < b)%Q -> q_ltb a b = true.
+Proof.
+  intros H. unfold q_ltb. destruct (Qcompare_spec a b) as [E|E|E]; try reflexivity; exfalso.
+  - rewrite E in H. apply (Qlt_irrefl _ H).
+  - apply (Qlt_irrefl a). eapply Qlt_trans; eauto.
+Qed.
+
+Lemma q_trunc_unit q : (0 <= q)%Q -> (q < 1)%Q -> q_trunc q = 0.
+Proof.
+  intros H0 H1. unfold q_trunc. rewrite (q_ltb_false q 0 H0).
+  pose proof (Qfloor_le q) as Hl. pose proof (Qlt_floor q) as Hu.
+  assert (A : (inject_Z (Qfloor q) < inject_Z 1)%Q) by (eapply Qle_lt_trans; eauto).
+  assert (B : (inject_Z 0 < inject_Z (Qfloor q + 1))%Q) by (eapply Qle_lt_trans; eauto).
+  rewrite <- Zlt_Qlt in A, B. lia.
+Qed.
+
+Lemma right_fraction s q : not_code s -> (0 <= q)%Q -> (q < 1)%Q ->
+  X_right [VStr s; VFloat q] = Ok (VStr []).
+Proof.
+  intros H H0 H1. unfold X_right. wrap_run. rewrite coerce_num_float.
+  rewrite (q_trunc_unit q H0 H1).
+  destruct (q_eqb (inject_Z 0) q); wrap_run;
+    rewrite ?in_codes_float, ?is_number_float; wrap_run.
+  - reflexivity.
+  - unfold text.f_right. py_run.
+    change (inject_Z 0) with 0%Q. change (inject_Z 1) with 1%Q.
+    rewrite (q_ltb_false q 0 H0). py_run. rewrite (q_ltb_true q 1 H1). reflexivity.
+Qed.
+
 (* ------------------------------------------------- non-vacuity examples *)
 Example ex_partition : X_left [VStr [97; 233; 128512; 98]; VInt 2] = Ok (VStr [97; 233])
   /\ X_mid [VStr [97; 233; 128512; 98]; VInt 3; VInt 4] = Ok (VStr [128512; 98]).
 Proof. split; vm_compute; reflexivity. Qed.
 Example ex_right : X_right [VStr [97; 98; 99]; VInt 2] = Ok (VStr [98; 99])
-  /\ X_right [VStr [97; 98; 99]; VInt 7] = Ok (VStr [97; 98; 99]).
-Proof. split; vm_compute; reflexivity. Qed.
+  /\ X_right [VStr [97; 98; 99]; VInt 7] = Ok (VStr [97; 98; 99])
+  /\ X_right [VStr [97; 98; 99]; VFloat (1 # 2)] = Ok (VStr []).
+Proof. repeat split; vm_compute; reflexivity. Qed.
 Example ex_replace : X_replace [VStr [97; 98; 99; 100]; VInt 2; VInt 2; VStr [88]] = Ok (VStr [97; 88; 100]).
 Proof. vm_compute. reflexivity. Qed.
 Example ex_find : X_find [VStr [98]; VStr [97; 98; 97; 98]; VInt 3] = Ok (VInt 4)
-  /\ X_find [VStr [122]; VStr [97; 98]; VInt 1] = Ok VERR.
-Proof. split; vm_compute; reflexivity. Qed.
+  /\ X_find [VStr [122]; VStr [97; 98]; VInt 1] = Ok VERR
+  /\ X_find [VStr [99]; VStr [97; 98; 99]; VInt 0] = Ok VERR
+  /\ X_find [VStr [98]; VStr [97; 98; 97; 98]; VFloat (5 # 2)] = Ok (VInt 2).
+Proof. repeat split; vm_compute; reflexivity. Qed.
 Example ex_substitute : X_substitute [VStr [97; 97; 97]; VStr [97; 97]; VStr [120]] = Ok (VStr [120; 97])
   /\ X_substitute [VStr [97; 98; 97; 98; 97]; VStr [97]; VStr [120]; VInt 2] = Ok (VStr [97; 98; 120; 98; 97]).
 Proof. split; vm_compute; reflexivity. Qed.
@@ -995,7 +1176,7 @@ Example ex_numbers : X_left [VFloat (inject_Z 3); VInt 5] = Ok (VStr [51])
   /\ X_left [VFloat (inject_Z 12345); VInt 2] = Ok (VStr [49; 50])
   /\ X_right [VBool true; VInt 2] = Ok (VStr [85; 69]).
 Proof. repeat split; vm_compute; reflexivity. Qed.
-Example ex_trim : X_trim [VStr [97; 32; 32; 32; 98]] = Ok (VStr [97; 32; 98]).
+Example ex_trim : X_trim [VStr [32; 97; 32; 32; 32; 98; 32; 32]] = Ok (VStr [97; 32; 98]).
 Proof. vm_compute. reflexivity. Qed.
 Example ex_upper : X_upper [VStr [97; 233; 128512]] = Ok (VStr [65; 201; 128512]).
 Proof. vm_compute. reflexivity. Qed.
